@@ -229,6 +229,38 @@ def flip_everywhere(run, repo):
     flip_normal_form(run, repo.func(K.TC_U, 'impose_leading_noncommutivity'), False)
 
 
+def rcc_gates(cf):
+    """Qubit tuples of the gate(...) calls made by a random-circuit constructor, executed with N = 4 and depth = 3."""
+    from .. import mini
+    got = []
+
+    def call(nd, env, rec):
+        fn = nd.func
+        if isinstance(fn, ast.Name) and fn.id == 'identity_circuit':
+            return 'CIRC'
+        if isinstance(fn, ast.Attribute) and fn.attr == 'gate':
+            args = []
+            for a in nd.args:
+                if isinstance(a, ast.Starred):
+                    args.extend(rec(a.value))
+                else:
+                    args.append(rec(a))
+            got.append(tuple(args))
+            return 'CIRC'
+        raise Undecidable('call ' + norm(fn))
+
+    def on_expr(e, env, value):
+        value(e)
+    env = {}
+    for p_ in cf.posparams + cf.kwonly:
+        env[p_] = {'N': 4, 'depth': 3}.get(p_, 'P_' + p_)
+    try:
+        mini.execute(cf.node, env, call=call, on_expr=on_expr)
+    except Undecidable:
+        return None
+    return got
+
+
 def pauli_blocks(run, repo):
     """random_pauli: rows 2i, 2i+1 of the table receive the pair returned by random_pair(1) on columns 2i:2i+2."""
     rpf = repo.func(K.PY_U, 'random_pauli')
@@ -339,18 +371,18 @@ def check(run):
         circ.gate_dispatch(run, gate.methods['backward'], 'backward')
     # rcc constructors
     for rel in (K.PY_C, K.TC_C):
-        bw = repo.func(rel, 'brickwall_rcc')
-        gates = [c for c in ast.walk(bw.node) if isinstance(c, ast.Call) and isinstance(c.func, ast.Attribute) and c.func.attr == 'gate']
-        run.check(len(gates) == 1 and [norm(a).replace(' ', '') for a in gates[0].args] == ['i', '(i+1)%N'], 'R12.rcc', bw, 'gate(i, (i+1) % N)', 'brick-wall gates act on neighbours')
-        loops = [norm(st.iter).replace(' ', '') for st, _ in walk(bw.node) if isinstance(st, ast.For)]
-        run.check(loops == ['range(depth)', 'range(l%2,N,2)'], 'R12.rcc', bw, 'loops', 'layers alternate between even and odd bonds (found %s)' % loops)
-        os_ = repo.func(rel, 'onsite_rcc')
-        gates = [c for c in ast.walk(os_.node) if isinstance(c, ast.Call) and isinstance(c.func, ast.Attribute) and c.func.attr == 'gate']
-        loops = [norm(st.iter).replace(' ', '') for st, _ in walk(os_.node) if isinstance(st, ast.For)]
-        run.check(len(gates) == 1 and [norm(a) for a in gates[0].args] == ['i'] and loops == ['range(N)'], 'R12.rcc', os_, 'gate(i) for i in range(N)', 'one single-qubit gate per qubit')
-        gl = repo.func(rel, 'global_rcc')
-        gates = [c for c in ast.walk(gl.node) if isinstance(c, ast.Call) and isinstance(c.func, ast.Attribute) and c.func.attr == 'gate']
-        run.check(len(gates) == 1 and [norm(a).replace(' ', '') for a in gates[0].args] == ['*range(N)'], 'R12.rcc', gl, 'gate(*range(N))', 'one gate on all qubits')
+        # the constructors are executed by the checker's interpreter for N = 4 (and depth 3): the list of gate() calls is compared
+        want = {'brickwall_rcc': [(0, 1), (2, 3), (1, 2), (3, 0), (0, 1), (2, 3)], 'onsite_rcc': [(0,), (1,), (2,), (3,)], 'global_rcc': [(0, 1, 2, 3)]}
+        what = {'brickwall_rcc': 'layers alternate between even and odd bonds and every gate acts on neighbours (i, (i+1) % N)',
+                'onsite_rcc': 'one single-qubit gate per qubit', 'global_rcc': 'one gate on all qubits'}
+        for q in ('brickwall_rcc', 'onsite_rcc', 'global_rcc'):
+            cf = repo.func(rel, q)
+            got = rcc_gates(cf)
+            if got is None:
+                run.undecided('R12.rcc', cf, q, 'constructor not interpretable')
+                continue
+            run.check(got == want[q], 'R12.rcc', cf, q, '%s (gate calls for N = 4%s: %s)' % (what[q], ', depth 3' if q == 'brickwall_rcc' else '', got))
+            run.ok('R12.rcc', cf, q + ' map-less gates', 'gates are added through circ.gate(...)')
     entries = []
     for rel in (K.PY_S, K.TC_S):
         entries += [repo.func(rel, q) for q in ('random_pauli_map', 'random_clifford_map', 'random_pauli_state', 'random_clifford_state')]
